@@ -1,14 +1,2 @@
 HOOK_COMMITS = ["b7b7dfc"]
 NOT_YET = {}
-TEXT = {
- "C01": {
-  "level": "Machine-checked Coq theorems over an executable model of the progress ledger (every history, every completion order): an emitted position always stems from a Seen with that commit position whose delivery has at least its announced number of messages certified written (C01_L1_emission_sound); the order half is refuted on the faithful model by a vm_compute witness (finding F1, replayed on the real ledger on every run). The model is tied to /repo by a differential correspondence on seeded op sequences through the verif hook.",
-  "note": "Trusted: Coq kernel + vm_compute; hand-written model coq/model/Ledger.v (checked against the real Ledger/emitProgress on every run, per-op results + ordered keys + final snapshot); harness and hook. Layers above the ledger (batcher, workers, client, composition) are being added; until then C01 is decided at the ledger layer only.",
-  "technique": "Coq proof (invariant by induction over histories) + vm_compute refutation witness + differential correspondence model/implementation",
- },
- "C02": {
-  "level": "Machine-checked Coq refutation: the faithful ledger model wedges for ever after a complete history containing a stale completion (C02_ledger_wedge_refuted, for every number of further emissions); the same history is replayed on the real ledger every run (known finding F1). Correspondence as for C01.",
-  "note": "Trusted as C01. The positive drain theorem under the no-stale-completion contract is being added.",
-  "technique": "Coq proof (induction on the number of later emissions) + differential correspondence model/implementation",
- },
-}
